@@ -326,6 +326,31 @@ func (f *frame) resolveName(name string) (SV, bool) {
 			return sv, true
 		}
 	}
+	if len(vals) > 1 && f.curLoop != nil {
+		// inside a loop clause: the one definition that the loop's own blocks refer to
+		var inLoop []ssa.Value
+		seenL := map[ssa.Value]bool{}
+		for _, b := range f.fn.Blocks {
+			if !f.curLoop.blocks[b.Index] {
+				continue
+			}
+			for _, in := range b.Instrs {
+				if d, ok := in.(*ssa.DebugRef); ok && !d.IsAddr {
+					if id, ok := d.Expr.(*ast.Ident); ok && id.Name == name && !seenL[d.X] {
+						if _, isConst := d.X.(*ssa.Const); !isConst {
+							seenL[d.X] = true
+							inLoop = append(inLoop, d.X)
+						}
+					}
+				}
+			}
+		}
+		if len(inLoop) == 1 {
+			if sv, ok := f.vals[inLoop[0]]; ok {
+				return sv, true
+			}
+		}
+	}
 	if len(vals) > 1 {
 		// several definitions: if exactly one is a phi that has been encoded and dominates, ambiguous
 		cfail("name %q is ambiguous in %s (%d definitions); use a loop phi or parameter", name, f.fn.Name(), len(vals))
